@@ -578,14 +578,14 @@ def compile_tu(lang: str, compiler: str, std: str, tu: pathlib.Path, incs: typin
     cmd = [exe, std, "-fsyntax-only", "-w", "-DNUNAVUT_ASSERT(x)=assert(x)"]
     if lang == "cpp":
         cmd += ["-include", "cassert"]
-    cmd += ["-fno-diagnostics-show-caret"]
-    cmd += ["-fmax-errors=0"] if compiler == "gcc" else ["-ferror-limit=0"]
+    # no source excerpts in the diagnostics, no limit on the number of errors (the guard must be reached)
+    cmd += ["-fno-diagnostics-show-caret", "-fmax-errors=0"] if compiler == "gcc" else ["-fno-caret-diagnostics", "-ferror-limit=0"]
     for i in incs:
         cmd += ["-I", i]
     cmd.append(str(tu))
     p = subprocess.run(cmd, capture_output=True, text=True, env=dict(os.environ, LC_ALL="C", LANG="C"), timeout=600)
-    if p.returncode not in (0, 1):
-        raise core.HarnessError(f"{exe} died with rc={p.returncode}: {p.stderr[-800:]}")
+    if p.returncode not in (0, 1) or re.search(r"unknown argument|unrecognized command.line option|no such file or directory: '|cannot execute", p.stderr):
+        raise core.HarnessError(f"{exe} could not be run properly (rc={p.returncode}): {p.stderr[-800:]}")
     return p.returncode, p.stderr
 
 
@@ -679,7 +679,7 @@ class Lab:
                 out.append(f"{NS}/{SUB}/{t['name']}_1_0{ext}")
         return out
 
-    def compile_pair(self, a: dict, b: dict, tid: str, compiler: str):
+    def compile_pair(self, a: dict, b: dict, tid: str, compiler: str, uid: int = 0):
         lang = a["lang"]
         ea, eb = self.eff[spec_key(a)], self.eff[spec_key(b)]
         hdrs = self.headers_for(lang, tid, ea, eb)
@@ -687,9 +687,13 @@ class Lab:
             return None
         tdir = self.spec_dir(a) / ("types-" + tid)
         sdir = self.spec_dir(b) / "support"
-        tu = self.root / "tu" / f"{spec_key(a)}-{spec_key(b)}-{tid}.{'c' if lang == 'c' else 'cpp'}"
+        # one TU file per compile job (jobs run concurrently; the same pair may occur more than once)
+        tu = self.root / "tu" / f"{uid}-{compiler}-{spec_key(a)}-{spec_key(b)}-{tid}.{'c' if lang == 'c' else 'cpp'}"
         tu.parent.mkdir(parents=True, exist_ok=True)
-        tu.write_text("".join(f'#include "{h}"\n' for h in hdrs))
+        text = "".join(f'#include "{h}"\n' for h in hdrs)
+        tu.write_text(text)
+        if tu.read_text() != text:
+            raise core.HarnessError(f"translation unit {tu} was not written completely")
         rc, err = compile_tu(lang, compiler, std_flag(lang, ea, eb), tu, [str(tdir), str(sdir), str(self.root / "stubs")])
         return {"rc": rc, "stderr": err, "headers": hdrs, "tdir": str(tdir)}
 
@@ -904,12 +908,12 @@ def run_pairs(ctx: core.Ctx, lab: Lab, pairs: typing.List[dict], compilers: typi
     t1 = time.time()
     jobs = [(p, tid, comp) for p in pairs for tid in p["typesets"] for comp in compilers]
 
-    def work(j):
-        p, tid, comp = j
-        return lab.compile_pair(p["A"], p["B"], tid, comp)
+    def work(ij):
+        i, (p, tid, comp) = ij
+        return lab.compile_pair(p["A"], p["B"], tid, comp, uid=i)
 
     with ThreadPoolExecutor(JOBS) as ex:
-        results = list(ex.map(work, jobs))
+        results = list(ex.map(work, enumerate(jobs)))
     # informational only (never a verdict)
     ctx.extra["phases"] = {"nnvg_runs": n_gen, "generate_s": round(t1 - t0, 1), "compiles": len(jobs), "compile_s": round(time.time() - t1, 1)}
     failures = []
